@@ -438,14 +438,14 @@ pub fn merge_stats(j: &mut Judged, s: &crate::exec::Stats) {
 
 fn cases_c02(t: Tier) -> u64 {
 	match t {
-		Tier::Quick => 320,
-		Tier::Thorough => 4800,
+		Tier::Quick => 1600,
+		Tier::Thorough => 16000,
 	}
 }
 fn cases_c07(t: Tier) -> u64 {
 	match t {
-		Tier::Quick => 240,
-		Tier::Thorough => 3200,
+		Tier::Quick => 1200,
+		Tier::Thorough => 12000,
 	}
 }
 
